@@ -16,9 +16,13 @@ import flowdyn.modelphy.shallowwater as shw
 MESH_KINDS = ["uni", "refined", "morphed", "arb"]
 
 
-def mesh1d(rng, kind=None, ncell=None, nmin=3, nmax=24, x0=True):
-    """returns (mesh, description dict).  'arb' = arbitrary monotone faces through a piecewise-linear morphing"""
+def mesh1d(rng, kind=None, ncell=None, nmin=3, nmax=24, x0=True, big=0.0):
+    """returns (mesh, description dict).  'arb' = arbitrary monotone faces through a piecewise-linear morphing.
+    big: probability of a LARGE mesh (257...1500 cells): a size-dependent code path (another solver, a vectorised branch above a
+    threshold) is only taken there"""
     nc = int(ncell if ncell is not None else rng.integers(nmin, nmax + 1))
+    if big and ncell is None and rng.random() < big:
+        nc = int(rng.integers(257, 1501))
     kind = kind or str(rng.choice(MESH_KINDS))
     L = float(np.round(rng.uniform(0.5, 5.0), 3))
     d = {"kind": kind, "ncell": nc, "length": L}
@@ -68,8 +72,10 @@ def mesh_from_faces(xf):
     return m
 
 
-def mesh2d(rng, nmax=6, nmin=1):
+def mesh2d(rng, nmax=6, nmin=1, big=0.0):
     nx, ny = int(rng.integers(nmin, nmax + 1)), int(rng.integers(nmin, nmax + 1))
+    if big and rng.random() < big:      # a large grid (several hundred cells)
+        nx, ny = int(rng.integers(17, 41)), int(rng.integers(17, 41))
     lx, ly = float(np.round(rng.uniform(0.5, 4.0), 3)), float(np.round(rng.uniform(0.5, 4.0), 3))
     cls = fmesh2d.mesh2d if rng.random() < 0.6 else fmesh2d.unimesh
     return cls(nx, ny, lx, ly), {"nx": nx, "ny": ny, "lx": lx, "ly": ly, "class": cls.__name__}
@@ -422,13 +428,13 @@ def _warm_up(rng, s, bc, mach_max, ratio):
 
 
 def scenario1d(rng, models=MODELS1D, bc=None, recons=ALL_RECONS, meshkinds=MESH_KINDS, ncell=None, nmin=3, nmax=24,
-               dkind=None, fluxes=None, mach_max=2.0, ratio=10.0, source=None, mname=None, section=None, warm=None, intdata=0.0):
+               dkind=None, fluxes=None, mach_max=2.0, ratio=10.0, source=None, mname=None, section=None, warm=None, intdata=0.0, big=0.0):
     s = Scn()
     s.mname = mname or str(rng.choice(models))
     s.model, s.mparams = make_model(s.mname, rng, source=source, section=section)
     fl = (fluxes or FLUXES)[s.mname]
     s.flux = fl[int(rng.integers(len(fl)))]
-    s.mesh, s.mdesc = mesh1d(rng, kind=str(rng.choice(meshkinds)), ncell=ncell, nmin=nmin, nmax=nmax)
+    s.mesh, s.mdesc = mesh1d(rng, kind=str(rng.choice(meshkinds)), ncell=ncell, nmin=nmin, nmax=nmax, big=big)
     if ratio > 100.0:   # huge jumps: unlimited extrapolation would leave the admissible set (negative face pressures)
         recons = [r for r in recons if r == "extrapol1" or r.startswith("muscl")] or ["extrapol1"]
     s.num, s.rname = recon(str(rng.choice(recons)), rng)
